@@ -254,6 +254,11 @@ func returnsOf(fn *ssa.Function) []*ssa.Return {
 	var out []*ssa.Return
 	instrs(fn, func(in ssa.Instruction) {
 		if r, ok := in.(*ssa.Return); ok {
+			// the synthetic recover block (functions with defer) returns the result variables after a
+			// recovered panic; it is not a return statement of the source
+			if fn.Recover != nil && r.Block() == fn.Recover {
+				return
+			}
 			out = append(out, r)
 		}
 	})
@@ -277,7 +282,7 @@ func isSuccessReturn(r *ssa.Return) bool {
 	if idx < 0 {
 		return true
 	}
-	return mayBeNil(r.Results[idx], map[ssa.Value]bool{})
+	return mayBeNil(retOperand(r, idx), map[ssa.Value]bool{})
 }
 
 // mayBeNil: error value may be nil (const nil, phi with a nil edge, load of a spilled result that is assigned nil...).
@@ -381,3 +386,25 @@ func isLoad(v ssa.Value) (*ssa.UnOp, bool) {
 }
 
 func strconvF(f float64) string { return fmtFloat(f) }
+
+// retOperand returns the value a return statement hands back as result i, looking through the
+// result-variable spill that go/ssa inserts in functions with defer (`*r = v; rundefers; t = *r; return t`).
+func retOperand(ret *ssa.Return, i int) ssa.Value {
+	v := ret.Results[i]
+	ld, ok := isLoad(v)
+	if !ok {
+		return v
+	}
+	al, ok := ld.X.(*ssa.Alloc)
+	if !ok {
+		return v
+	}
+	// the spill store in the same block, before the return
+	b := ret.Block()
+	for k := instrIndex(ret) - 1; k >= 0; k-- {
+		if st, ok := b.Instrs[k].(*ssa.Store); ok && st.Addr == ssa.Value(al) {
+			return st.Val
+		}
+	}
+	return v
+}
